@@ -32,6 +32,13 @@ func (e *Env) Phase(p string) {
 	e.saveConsumed()
 }
 
+// Describe records the description of the run so that it survives a process
+// exit forced by the code under test.
+func (e *Env) Describe(sample any) {
+	b, _ := json.Marshal(sample)
+	_ = os.WriteFile(e.job.Out+".sample", b, 0o644)
+}
+
 func (e *Env) saveConsumed() {
 	b, _ := json.Marshal(e.ch.Trace())
 	_ = os.WriteFile(e.job.Out+".consumed", b, 0o644)
